@@ -10,7 +10,7 @@ ENTRY = `[CMD, idx, term]`;  PREV = `null | [idx, term]`;  CB = `null | ["loc", 
 CONF  = `{"batch","useBatch","dyn","waitLeader","queueMax"}`
 STATE = `{"self","role","term","leader","log","commit","lastApplied","members","readonly","connected",
           "next","match","queue","waitCommit","waitReply","counter","noop","change","buf"}`
-          (`buf` = `null | [[ENTRY,pos,len]…]`: slices of pickled entries; output `[[idx,pos,len]…]`)
+          (`buf` = `null | [[ENTRY,pos,len]…]`: slices of pickled entries)
 MSG   = `{"t":"append",…} | {"t":"chunk",…} | {"t":"snap",…} | {"t":"apply_command",…} | {"t":"response",…} | {"t":"next",…}`
 OUT   = `["send",dst,MSG] | ["cb",id,code] | ["addNode",n] | ["dropNode",n]`
 
@@ -186,13 +186,13 @@ def cbJ : Cb → Json
 
 def mapJ (m : Map) : Json := Json.arr ((sortByKey m).map fun p => Json.arr #[nat p.1, nat p.2]).toArray
 
-/-- run-length compression of the abstract receive buffer: `[idx, pos, len]` -/
-def spansOf : List PByte → List (Nat × Nat × Nat)
+/-- run-length compression of the abstract receive buffer: `[ENTRY, pos, len]` -/
+def spansOf : List PByte → List (Entry × Nat × Nat)
   | [] => []
   | (e, i) :: rest =>
     match spansOf rest with
-    | (idx, p, n) :: more => if idx = e.idx ∧ p = i + 1 then (idx, i, n + 1) :: more else (e.idx, i, 1) :: (idx, p, n) :: more
-    | [] => [(e.idx, i, 1)]
+    | (e', p, n) :: more => if e' = e ∧ p = i + 1 then (e, i, n + 1) :: more else (e, i, 1) :: (e', p, n) :: more
+    | [] => [(e, i, 1)]
 
 def roleNat : Role → Nat
   | .follower => 0 | .candidate => 1 | .leader => 2
@@ -221,7 +221,7 @@ def stateJ (s : Node) : Json :=
     ("change", optNat s.changeIdx),
     ("buf", match s.recvBuf with
       | none => Json.null
-      | some b => Json.arr ((spansOf b).map fun p => Json.arr #[nat p.1, nat p.2.1, nat p.2.2]).toArray)]
+      | some b => Json.arr ((spansOf b).map fun p => Json.arr #[entryJ p.1, nat p.2.1, nat p.2.2]).toArray)]
 
 def branchStr : Branch → String
   | .appendLocal => "appendLocal" | .appendRemote => "appendRemote" | .denied => "denied"
